@@ -1864,7 +1864,7 @@ fn dbscan_many_clusters(c: &mut Case) {
 fn main() {
     runner::main(Spec {
         property: "C19",
-        rule: "one family per serialisable public type; a case draws width (f32/f64), a data set A (4..24 rows, 1..5 columns; continuous columns either generic reals or a dyadic grid k/8, binary / count / categorical columns for the discrete naive Bayes variants), targets, hyper-parameters, a second data set B with other rows and other targets (independent draw, or A translated by non-zero integers with shifted / rotated targets) and 7..11 probe queries (fresh points, neighbours of A rows, neighbours of B rows, one training row); the object fitted on A is round-tripped through bincode, JSON text and serde_json::Value; a case is non-trivial when the fit succeeded and the outputs of the original on the probes are not all the same value (DenseMatrix: at least 2 entries; parameter structs: always); distinct = distinct hash of the case description (type, width, hyper-parameters, A, B, Q); *_big families (k-NN, trees, forests): 260..420 rows, half of them lattice-valued (columns full of ties); DenseMatrix shapes 0..8 x 0..8 incl. empty ones; k-means with max_iter in {1,2,3,100} and k = n in 12 % of the fits; Lasso / elastic net with max_iter in {1,3,300}",
+        rule: "one family per serialisable public type; a case draws width (f32/f64), a data set A (4..24 rows, 1..5 columns; continuous columns either generic reals or a dyadic grid k/8, binary / count / categorical columns for the discrete naive Bayes variants), targets, hyper-parameters, a second data set B with other rows and other targets (independent draw, or A translated by non-zero integers with shifted / rotated targets) and 7..11 probe queries (fresh points, neighbours of A rows, neighbours of B rows, one training row); the object fitted on A is round-tripped through bincode, JSON text and serde_json::Value; a case is non-trivial when the fit succeeded and the outputs of the original on the probes are not all the same value (DenseMatrix: at least 2 entries; parameter structs: always); distinct = distinct hash of the case description (type, width, hyper-parameters, A, B, Q); *_big families (k-NN, trees, forests): 260..420 rows, half of them lattice-valued (columns full of ties); DenseMatrix shapes 0..8 x 0..8 incl. empty ones; k-means with max_iter in {1,2,3,100} and k = n in 12 % of the fits; Lasso / elastic net with max_iter in {1,3,300}; dbscan_many_clusters: 260..400 two-point clusters on a line, 200 queries (150 of them midway between neighbouring clusters, votes tied): predict twice, restore from bincode and JSON, predict again",
         assumptions: vec![
             "JSON: when re-serialising the restored object reproduces the JSON text exactly, every float survived the decimal round trip and outputs must be bit-identical and restored == original; otherwise (serde_json's default float parser may be 1 ulp off) outputs must agree to 1e-12 (f64) / 1e-6 (f32) relative to 1 + max|output| and no equality verdict is taken",
             "serde_json::Value round trip carries floats in binary: outputs must be bit-identical",
